@@ -41,6 +41,10 @@ pub mod c14_msg;
 pub mod c15_discovery_wire;
 #[cfg(feature = "security")]
 pub mod c16_crypto;
+#[cfg(feature = "security")]
+pub mod sec_stubs;
+#[cfg(feature = "security")]
+pub mod c17_gate;
 pub mod c20_waitack;
 
 use std::fmt::Write as _;
@@ -173,6 +177,8 @@ pub fn registry() -> Vec<Property> {
   v.push(c15_discovery_wire::property());
   #[cfg(feature = "security")]
   v.push(c16_crypto::property());
+  #[cfg(feature = "security")]
+  v.push(c17_gate::property());
   v.push(c20_waitack::property());
   v
 }
